@@ -133,7 +133,9 @@ def _step(cfg):
         ob.append(("peek always accepted", o.done("peek") == o.en("peek")))
         ob.append(("peek reports the free mask", z3.Implies(o.done("peek"), o.out("peek") == mask)))
         rp, cl = o.done("replace"), o.done("clear")
-        ob.append(("replace and clear never run together", z3.Not(z3.And(rp, cl))))
+        # "replace/clear set it": a completed replace leaves its argument, a completed clear leaves init; both completing in one
+        # cycle is only consistent when the two values agree (the real allocator serialises them: clear calls replace)
+        ob.append(("replace and clear completing in one cycle set the same mask", z3.Implies(z3.And(rp, cl), o.arg("replace") == z3.BitVecVal(im, n))))
         ob.append(("replace runs when enabled alone", z3.Implies(z3.And(o.en("replace"), z3.Not(o.en("clear"))), rp)))
         ob.append(("clear runs when enabled alone", z3.Implies(z3.And(o.en("clear"), z3.Not(o.en("replace"))), cl)))
         ob.append(("replace / clear run only when enabled", z3.And(z3.Implies(rp, o.en("replace")), z3.Implies(cl, o.en("clear")))))
